@@ -18,14 +18,15 @@ RULE = ('seeded generation per key class (int, float, decimal, mixed numeric, hu
         'and {10241,12000} (spill); distinct = case hash; non-trivial = >=2 distinct keys and >=1 duplicate key')
 ASSUMPTIONS = [
     'NaN/inf and null key values are not generated',
-    'a non-last text member of a composite key never has a proper-prefix pair (composition undocumented)',
+    'a key over several fields (list, or format string with several placeholders) compares field by field in the '
+    'order given; literal text between placeholders does not take part',
     'numbers beyond 2^53, decimals differing past float64 precision and -0.0 are judged strictly, each in '
     'its own named class',
 ]
 REQUIRED_COUNTERS = ['orders_checked', 'permutations_checked']
 D = decimal.Decimal
 CLASSES = ['int', 'float', 'decimal', 'mixed', 'huge', 'highprec', 'negzero', 'text', 'text_unicode',
-           'num_num', 'num_text', 'text_num', 'fmt_pad', 'fmt_sep', 'callable', 'multi_resource']
+           'num_num', 'num_text', 'text_num', 'text_text', 'fmt_pad', 'fmt_sep', 'callable', 'multi_resource', 'overflow']
 
 
 def gen_cases(tier, seed):
@@ -55,6 +56,9 @@ def keyval(rng, c):
         return rng.choice([1, 1.5, D('1.25'), -1, -1.5, D('-1.25'), 2, 2.0, D('2'), 0, 10, D('9.5')])
     if c == 'huge':
         return rng.choice([2 ** 53, 2 ** 53 + 1, 2 ** 53 + 2, -2 ** 53 - 1, -2 ** 53, 2 ** 70, 2 ** 70 + 1, 5])
+    if c == 'overflow':
+        # integers are unbounded: values beyond the float64 range are valid integer cells
+        return rng.choice([10 ** 400, -10 ** 400, 10 ** 400 + 1, 3, -3, 0])
     if c == 'highprec':
         return rng.choice([D('1.00000000000000000001'), D('1.00000000000000000002'), D('1'),
                            D('0.99999999999999999999'), D('2')])
@@ -138,7 +142,7 @@ def run_case(case):
     reverse = rng.random() < 0.4
     batch = rng.choice([1, 2, 7, 1000]) if n <= 1000 else rng.choice([7, 1000])
     # key fields + typed key function
-    if c in ('int', 'float', 'decimal', 'mixed', 'huge', 'highprec', 'negzero', 'text', 'text_unicode'):
+    if c in ('int', 'float', 'decimal', 'mixed', 'huge', 'highprec', 'negzero', 'text', 'text_unicode', 'overflow'):
         rows = [{'id': i, 'k': keyval(rng, c)} for i in range(n)]
         form = rng.choice(['fmt', 'list', 'tuple'])
         key = {'fmt': '{k}', 'list': ['k'], 'tuple': ('k',)}[form]
@@ -154,12 +158,17 @@ def run_case(case):
         key = {'fmt': '{k}{t}', 'list': ['k', 't'], 'fmt_sep': '{k}/{t}'}[form]
         tkey = lambda r: (exact(r['k']), r['t'])                           # noqa: E731
     elif c == 'text_num':
-        rows = [{'id': i, 't': rng.choice(TEXT_NOPREFIX), 'k': keyval(rng, 'int')} for i in range(n)]
+        rows = [{'id': i, 't': rng.choice(TEXT), 'k': keyval(rng, 'int')} for i in range(n)]
         form = rng.choice(['fmt', 'list', 'fmt_sep'])
         key = {'fmt': '{t}{k}', 'list': ['t', 'k'], 'fmt_sep': '{t}|{k}'}[form]
         tkey = lambda r: (r['t'], exact(r['k']))                           # noqa: E731
+    elif c == 'text_text':
+        rows = [{'id': i, 't': rng.choice(TEXT), 'u': rng.choice(TEXT)} for i in range(n)]
+        form = rng.choice(['fmt', 'list', 'fmt_sep'])
+        key = {'fmt': '{t}{u}', 'list': ['t', 'u'], 'fmt_sep': '{t}, {u}'}[form]
+        tkey = lambda r: (r['t'], r['u'])                                  # noqa: E731
     elif c == 'fmt_pad':
-        rows = [{'id': i, 'k': rng.randint(0, 99999), 't': rng.choice(TEXT_NOPREFIX)} for i in range(n)]
+        rows = [{'id': i, 'k': rng.randint(0, 99999), 't': rng.choice(TEXT)} for i in range(n)]
         form = rng.choice(['pad', 'pad_text'])
         key = {'pad': '{k:06d}', 'pad_text': '{t}-{k:06d}'}[form]
         tkey = (lambda r: ('%06d' % r['k'],)) if form == 'pad' else (lambda r: (r['t'], '%06d' % r['k']))
@@ -182,7 +191,7 @@ def run_case(case):
     exp = list(reversed(asc)) if reverse else asc
     def srcstep():
         # explicit schema (no inference, no cast): '' stays '', numbers keep their Python type
-        typ = {'id': 'integer', 't': 'string'}
+        typ = {'id': 'integer', 't': 'string', 'u': 'string'}
         ktyp = 'string' if c in ('text', 'text_unicode') else 'number'
         flds = [{'name': f, 'type': typ.get(f, ktyp)} for f in (rows[0] if rows else {'id': 0})]
         return lab.source('res', flds, rows)
